@@ -57,7 +57,7 @@ def main():
              "kind_free_text": "runtime-monitoring harness: sharded workload generators, monitors/oracles over recorded events of the real dask code, three-valued verdicts, known-finding classifier"},
         ],
         "checks": checks,
-        "notes": "All checks: exit 0 held on what was observed, exit 1 + VIOLATION line, exit 2 + INCONCLUSIVE line (a deciding monitor was not reached). Known findings (committed, never written at run time): /verif/known_findings.json and /verif/known_findings.d/*.json, keyed by exact mechanism label; their "fixed" lists record repaired defects by commit. Seeded changes used to validate the monitors: /verif/seeded/.",
+        "notes": "All checks: exit 0 held on what was observed, exit 1 + VIOLATION line, exit 2 + INCONCLUSIVE line (a deciding monitor was not reached). Known findings (committed, never written at run time): /verif/known_findings.json and /verif/known_findings.d/*.json, keyed by exact mechanism label; their 'fixed' lists record repaired defects by commit. Seeded changes used to validate the monitors: /verif/seeded/.",
         "not_applicable": na,
     }
     with open(os.path.join(HERE, "MANIFEST.json"), "w") as f:
